@@ -452,70 +452,82 @@ fn conv_bc<T: Flt, D: Dimension>(bc: &Bc<T>) -> Option<BoundaryCondition<T, D>> 
     })
 }
 
-/// Build an owned 1-D interpolator. `x = None` uses the builder's default index axis.
-/// Returns None when `data` (or an Individual boundary array) cannot be expressed in the
-/// static dimension type `dd` (not a property of the crate, just not a well-typed call).
-pub fn build1<T: Flt>(
-    x: Option<Array1<T>>,
-    data: ArrayD<T>,
-    dd: DDim,
-    strat: &Strat1<T>,
-) -> Option<Result<Box<dyn I1<T>>, BuilderError>> {
-    macro_rules! go {
-        ($D:ty) => {{
-            let data = data.into_dimensionality::<$D>().ok()?;
-            match strat {
-                Strat1::Linear { extrapolate } => {
-                    let b = Interp1DBuilder::new(data).strategy(Linear::new().extrapolate(*extrapolate));
-                    Some(match x {
-                        Some(x) => b.x(x).build().map(|i| Box::new(i) as Box<dyn I1<T>>),
-                        None => b.build().map(|i| Box::new(i) as Box<dyn I1<T>>),
-                    })
-                }
-                Strat1::Spline { extrapolate, bc } => {
-                    let s = CubicSpline::<T, $D>::new().extrapolate(*extrapolate).boundary(conv_bc::<T, $D>(bc)?);
-                    let b = Interp1DBuilder::new(data).strategy(s);
-                    Some(match x {
-                        Some(x) => b.x(x).build().map(|i| Box::new(i) as Box<dyn I1<T>>),
-                        None => b.build().map(|i| Box::new(i) as Box<dyn I1<T>>),
-                    })
-                }
+macro_rules! def_build1 {
+    ($name:ident, $obj:ty) => {
+        /// Build an owned 1-D interpolator. `x = None` uses the builder's default index axis.
+        /// Returns None when `data` (or an Individual boundary array) cannot be expressed in the
+        /// static dimension type `dd` (not a property of the crate, just not a well-typed call).
+        pub fn $name<T: Flt>(
+            x: Option<Array1<T>>,
+            data: ArrayD<T>,
+            dd: DDim,
+            strat: &Strat1<T>,
+        ) -> Option<Result<Box<$obj>, BuilderError>> {
+            macro_rules! go {
+                ($D:ty) => {{
+                    let data = data.into_dimensionality::<$D>().ok()?;
+                    match strat {
+                        Strat1::Linear { extrapolate } => {
+                            let b = Interp1DBuilder::new(data).strategy(Linear::new().extrapolate(*extrapolate));
+                            Some(match x {
+                                Some(x) => b.x(x).build().map(|i| Box::new(i) as Box<$obj>),
+                                None => b.build().map(|i| Box::new(i) as Box<$obj>),
+                            })
+                        }
+                        Strat1::Spline { extrapolate, bc } => {
+                            let s = CubicSpline::<T, $D>::new().extrapolate(*extrapolate).boundary(conv_bc::<T, $D>(bc)?);
+                            let b = Interp1DBuilder::new(data).strategy(s);
+                            Some(match x {
+                                Some(x) => b.x(x).build().map(|i| Box::new(i) as Box<$obj>),
+                                None => b.build().map(|i| Box::new(i) as Box<$obj>),
+                            })
+                        }
+                    }
+                }};
             }
-        }};
-    }
-    ddispatch!(dd, go)
+            ddispatch!(dd, go)
+        }
+    };
 }
+def_build1!(build1, dyn I1<T>);
+def_build1!(build1_sync, dyn I1<T> + Send + Sync);
 
-/// Build an owned 2-D bilinear interpolator. Data dims Ix2..Ix6 / IxDyn.
-pub fn build2<T: Flt>(
-    x: Option<Array1<T>>,
-    y: Option<Array1<T>>,
-    data: ArrayD<T>,
-    dd: DDim,
-    extrapolate: bool,
-) -> Option<Result<Box<dyn I2<T>>, BuilderError>> {
-    macro_rules! go {
-        ($D:ty) => {{
-            let data = data.into_dimensionality::<$D>().ok()?;
-            let b = Interp2DBuilder::new(data).strategy(Bilinear::new().extrapolate(extrapolate));
-            Some(match (x, y) {
-                (Some(x), Some(y)) => b.x(x).y(y).build().map(|i| Box::new(i) as Box<dyn I2<T>>),
-                (Some(x), None) => b.x(x).build().map(|i| Box::new(i) as Box<dyn I2<T>>),
-                (None, Some(y)) => b.y(y).build().map(|i| Box::new(i) as Box<dyn I2<T>>),
-                (None, None) => b.build().map(|i| Box::new(i) as Box<dyn I2<T>>),
-            })
-        }};
-    }
-    match dd {
-        DDim::S1 => None,
-        DDim::S2 => go!(Ix2),
-        DDim::S3 => go!(Ix3),
-        DDim::S4 => go!(Ix4),
-        DDim::S5 => go!(Ix5),
-        DDim::S6 => go!(Ix6),
-        DDim::Dyn => go!(IxDyn),
-    }
+macro_rules! def_build2 {
+    ($name:ident, $obj:ty) => {
+        /// Build an owned 2-D bilinear interpolator. Data dims Ix2..Ix6 / IxDyn.
+        pub fn $name<T: Flt>(
+            x: Option<Array1<T>>,
+            y: Option<Array1<T>>,
+            data: ArrayD<T>,
+            dd: DDim,
+            extrapolate: bool,
+        ) -> Option<Result<Box<$obj>, BuilderError>> {
+            macro_rules! go {
+                ($D:ty) => {{
+                    let data = data.into_dimensionality::<$D>().ok()?;
+                    let b = Interp2DBuilder::new(data).strategy(Bilinear::new().extrapolate(extrapolate));
+                    Some(match (x, y) {
+                        (Some(x), Some(y)) => b.x(x).y(y).build().map(|i| Box::new(i) as Box<$obj>),
+                        (Some(x), None) => b.x(x).build().map(|i| Box::new(i) as Box<$obj>),
+                        (None, Some(y)) => b.y(y).build().map(|i| Box::new(i) as Box<$obj>),
+                        (None, None) => b.build().map(|i| Box::new(i) as Box<$obj>),
+                    })
+                }};
+            }
+            match dd {
+                DDim::S1 => None,
+                DDim::S2 => go!(Ix2),
+                DDim::S3 => go!(Ix3),
+                DDim::S4 => go!(Ix4),
+                DDim::S5 => go!(Ix5),
+                DDim::S6 => go!(Ix6),
+                DDim::Dyn => go!(IxDyn),
+            }
+        }
+    };
 }
+def_build2!(build2, dyn I2<T>);
+def_build2!(build2_sync, dyn I2<T> + Send + Sync);
 
 pub fn arr_d<T: Flt>(shape: &[usize], vals: &[f64]) -> ArrayD<T> {
     ArrayD::from_shape_vec(IxDyn(shape), vals.iter().map(|&v| T::of(v)).collect()).expect("shape/len mismatch")
